@@ -118,6 +118,9 @@ type EmitOpts struct {
 	// LowerTags gives every field a parquet tag with the lower-cased field
 	// name, so that column names differ from Go field names.
 	LowerTags bool
+	// TagStyle (used when LowerTags is set): 0 lower-case ASCII (f1), 1 a lower-case
+	// non-ASCII first letter (éf1), 2 snake case (f_1)
+	TagStyle int
 }
 
 // Source emits Go declarations for the forest: root type T, one named struct
@@ -184,6 +187,12 @@ func EnumSrcs(maxNodes, maxDepth int) []Src {
 func tagFor(o EmitOpts, name string) string {
 	if !o.LowerTags {
 		return ""
+	}
+	switch o.TagStyle {
+	case 1:
+		name = "é" + name
+	case 2:
+		name = name[:1] + "_" + name[1:]
 	}
 	return " `parquet:\"" + name + "\"`"
 }
